@@ -88,6 +88,8 @@ theorem step_store_other (c : TCfg) (s : Sys) (op : TOp) (h : ∀ i ns n, op ≠
   | up => exact ⟨rfl, rfl⟩
   | pingOk i => simp only [Sys.step]; split <;> exact ⟨rfl, rfl⟩
   | monExit i => simp only [Sys.step]; split <;> exact ⟨rfl, rfl⟩
+  | lateFail i => exact ⟨rfl, rfl⟩
+  | cancelledAlive i ns n => exact ⟨rfl, rfl⟩
 
 theorem tinv_hist_mono (c : TCfg) (st : Store) (b : Bucket) (hist : List (Nat × Nat)) (p : Nat × Nat)
     (h : TInv c st b hist) : TInv c st b (p :: hist) := by
@@ -162,6 +164,12 @@ theorem sys_refines_bucket (c : TCfg) (hr : 0 < c.rate) (hk : c.k1 ≠ c.k2) :
       simp only [TimedFrom] at ht
       exact ih _ b hist hinv ht
     | up =>
+      simp only [TimedFrom] at ht
+      exact ih _ b hist hinv ht
+    | lateFail i =>
+      simp only [TimedFrom] at ht
+      exact ih _ b hist hinv ht
+    | cancelledAlive i ns n =>
       simp only [TimedFrom] at ht
       exact ih _ b hist hinv ht
     | pingOk i =>
